@@ -35,4 +35,8 @@ let handle (toks : string list) : string =
            "ok" ^ String.concat "" (List.map (fun (k, m) ->
              Printf.sprintf " %s:%s:%s" (match k with Nearby -> "nearby" | Faraway -> "faraway")
                (hex_of_bytes m.m_id) (string_of_z m.m_meters)) l))
+  | ["round"; d] -> string_of_z (round_mm (z_of_string d))
+  | "scan" :: mid :: scan :: ids ->
+      "ok" ^ String.concat "" (List.map (fun (self, i) -> (if self then " self:" else " ") ^ hex_of_bytes i)
+        (scan_ids (List.map bytes_of_hex ids) (bytes_of_hex mid) (bytes_of_hex scan)))
   | _ -> "?unknown"
